@@ -555,7 +555,8 @@ def run_check(driver: Driver, argv=None):
             violations.append(Violation("correspondence", "correspondence-error",
                                         "model evaluation failed in Coq: " + e["log"][-1500:],
                                         None, None, found_input=False))
-        oracle_failed_cases = {json.dumps(v.case, sort_keys=True, default=str) for v in violations if v.found_input}
+        oracle_failed_cases = {json.dumps(v.case, sort_keys=True, default=str) for v in violations
+                               if v.found_input and match_known(pid, v.signature, findings) is None}
         for cid in k_fail:
             case = cases[cid]
             if json.dumps(case, sort_keys=True, default=str) in oracle_failed_cases:
